@@ -78,12 +78,11 @@ CHECKS = {
         design="DESIGN.md §5 C16",
         technique="Coq proof (structural recognisers equal to the regexes on rendered inputs, totality by case analysis) + differential correspondence with ipaddress/inet_pton oracles"),
     "C19": dict(
-        text=("19 theorems (Props/C19.v): for every scanner byte stream and every cutting into reads the HOST_LIST payloads concatenate to the "
-              "longest newline-terminated prefix with every record relayed exactly once; every line that reaches the hosts file is "
-              "'<dotted quad> <name over [-A-Za-z0-9_.]+> <marker>'; the repaired client never raises and skips malformed records; found_host/"
-              "read_host_cache are total. As-found behaviour refuted with witnesses (F13, F19, F24, F25: fixed; F26: known finding). "
-              "Tied to /repo by running the real hostwatch functions, the real hostwatch_ready closure of server.main, the real onhostlist closure of "
-              "client._main, sethostip, and the real helper HOST loop with rewrite_etc_hosts on scratch files."),
+        text=("30 theorems (Props/C19.v): for every scanner byte stream and every cutting into reads the HOST_LIST payloads concatenate to the longest newline-terminated prefix with every record relayed exactly once; "
+              "for every payload sequence and HOST lines of EVERY length (the helper's read limit is a model parameter instantiated with the limit regenerated from firewall.py: none) the helper keeps running, each forwarded record is set exactly once in its host map, "
+              "and every line that reaches the hosts file is '<dotted quad> <name over [-A-Za-z0-9_.]+> <marker>'; the repaired client never raises and skips malformed records; found_host/read_host_cache are total. "
+              "As-found behaviour refuted with witnesses (F5 readline(128): 129- and 132-byte HOST lines; F13, F19, F24, F25: fixed; F26: known finding); _any_limit/_asfound_partial variants keep the fits-one-read hypothesis, and the unconditional proofs stop checking if the source reads with a limit again. "
+              "Tied to /repo by running the real hostwatch functions, the real hostwatch_ready closure of server.main, the real onhostlist closure of client._main, sethostip, and the real helper HOST loop (read limit observed at its stdin and passed to the model; names up to 60000 characters) with rewrite_etc_hosts on scratch files."),
         note="modelled not verified: Python re/str classification tables above U+007F are parameters supplied by the harness per case; UTF-8 remote locale assumed.",
         design="DESIGN.md §5 C19",
         technique="Coq proof (stream-level splitter spec by induction on the chunk list, filter characterisation) + pipeline differential correspondence"),
